@@ -109,6 +109,80 @@ def big_heap_exec(rng):
     return lines
 
 
+CMPS = ["3way", "3way", "bool", "diff"]
+
+
+def with_cmp(rng, ex):
+    """the comparator shape is a parameter of the queue, not of the order: every family runs with all three"""
+    if ex and ex[0].startswith("RESET ") and len(ex[0].split()) == 4:
+        ex = [ex[0] + " " + rng.choice(CMPS)] + ex[1:]
+    return ex
+
+
+def resift_exec(rng):
+    """remove-by-handle where the element moved into the vacated slot has to travel (up towards the root or down), then
+    pushes that bury it, then a complete drain: a removal that leaves the heap out of order shows only several calls
+    later.  A reference heap in the driver (same algorithm: append + sift up, swap with last + sift either) picks the
+    handle; it steers only - the verdict is the specification's on what the real queue returned."""
+    isz = rng.choice([3, 8, 129])
+    n = rng.randint(5, 12)
+    lines = ["RESET dyn %d %d" % (rng.choice([0, 4, 32]), isz)]
+    vals = rng.sample(range(0, 3 * n + 4), n)
+    heap = []                                   # [v, handle]
+
+    def up(i):
+        moved = False
+        while i and heap[(i - 1) // 2][0] > heap[i][0]:
+            heap[(i - 1) // 2], heap[i] = heap[i], heap[(i - 1) // 2]
+            i = (i - 1) // 2
+            moved = True
+        return moved
+
+    def down(i):
+        while True:
+            l, r, f = 2 * i + 1, 2 * i + 2, i
+            if l < len(heap) and heap[f][0] > heap[l][0]:
+                f = l
+            if r < len(heap) and heap[f][0] > heap[r][0]:
+                f = r
+            if f == i:
+                return
+            heap[f], heap[i] = heap[i], heap[f]
+            i = f
+
+    nid = 1
+    for k, v in enumerate(vals):
+        h = k + 1
+        lines.append("PUSH %d %d %d" % (v, nid, h))
+        nid += 1
+        heap.append([v, h])
+        up(len(heap) - 1)
+    for _ in range(rng.choice([1, 1, 2, 3])):
+        if len(heap) < 4:
+            break
+        last = len(heap) - 1
+        ups = [i for i in range(1, last) if heap[i][1] and heap[last][0] < heap[(i - 1) // 2][0]]
+        downs = [i for i in range(0, last) if heap[i][1] and i not in ups]
+        if not ups and not downs:
+            break
+        i = rng.choice(ups) if ups and rng.random() < 0.75 else rng.choice(downs or ups)
+        lines.append("REMOVE %d" % heap[i][1])
+        heap[i], heap[last] = heap[last], heap[i]
+        heap.pop()
+        if i < len(heap) and not (i and up(i)):
+            down(i)
+        for _ in range(rng.choice([0, 1, 1, 2, 3])):
+            v = rng.choice([3 * n + 5 + nid, rng.randrange(0, 3 * n + 4)]) % 250
+            lines.append("PUSH %d %d 0" % (v, nid))
+            nid += 1
+            heap.append([v, 0])
+            up(len(heap) - 1)
+    for _ in range(len(heap)):
+        lines.append("POP" if rng.random() < 0.8 else "TOP")
+    lines += ["POP"] * len(heap)
+    return lines
+
+
 def run(ctx):
     thorough = ctx.tier == "thorough"
     exe = prepare(ctx)
@@ -116,7 +190,8 @@ def run(ctx):
                 "push/push_ref/pop/top/remove/clear; distinct = distinct script text; non-trivial = contains at least "
                 "one push with a handle and one pop or remove")
     ctx.assumptions += [
-        "comparator is a strict weak order on the first byte of the element",
+        "comparator is a strict weak order on the first byte of the element, given in three shapes: -1/0/+1, 'a > b' (0/1, "
+        "as the library's task scheduler passes) and a scaled difference",
         "scripts respect the API obligation that a handle is not pushed while it is still in the queue",
         "allocation cannot fail (aws_mem_acquire aborts on OOM), so push on a dynamic queue cannot fail",
     ]
@@ -136,8 +211,13 @@ def run(ctx):
     nbig = 500 if not thorough else 10000
     for _ in range(nbig):
         execs.append(big_heap_exec(rng))
+    nres = 500 if not thorough else 10000
+    for _ in range(nres):
+        execs.append(resift_exec(rng))
+    execs = [with_cmp(rng, ex) for ex in execs]
     ctx.extra["random_scripts"] = nrand
     ctx.extra["big_heap_scripts"] = nbig
+    ctx.extra["resift_scripts"] = nres
     for ex in execs:
         ctx.evaluations += 1
         has_h = any(ln.startswith("PUSH") and not ln.endswith(" 0") for ln in ex)
